@@ -41,16 +41,25 @@ CHECKS.update({
              'virtual_size and the safety_check outcome are the spec '
              'functions of the stream prefix, with pure observers. VHDX: the '
              'two table walks (loop invariants, bounded quantifiers over '
-             'every table size) and post_process; VMDK: post_process of the '
-             'sparse-header path class (relocation, footer region, '
-             'idempotence); wrapper feeding (C06 contracts). BOUNDED, not '
-             'proved: the class-level chunk-sequence induction for VHDX/VMDK '
-             'and wrapper end-to-end - image families x ~30 chunkings with '
-             'oracles written from the layouts. Known findings F1, F3.',
+             'every table size, exact outcome functions), post_process, and '
+             'the class-level induction R_VHDX init/step through the real '
+             'eat_chunk fixpoint loop (finders enter through their proved '
+             'contracts), uniqueness of the state in R_VHDX(S,q) (= chunk '
+             'independence) and monotone rejection. VMDK, sparse class '
+             '(stream shorter than 64 bytes, or an admissible sparse '
+             'header): post_process, R_VMDK init/step in three phases, the '
+             'provisional-descriptor lemma on the real _parse_descriptor, '
+             'uniqueness of the verdict. Wrapper feeding (C06 contracts). '
+             'BOUNDED, not proved: streams >= 64 bytes outside the VMDK '
+             'sparse class, and the wrapper end-to-end - image families x '
+             '~30 chunkings with oracles written from the layouts. Known '
+             'findings F1 (text-descriptor mode), F3 (late footer window).',
         note='Trusted: pyvc VC generator, z3; A-STATIC; set iteration order '
              'of region sets taken as insertion order. The chunk-sequence '
              'induction (R-init, R-step => every chunking) is the standard '
-             'loop rule, not mechanised per driver.',
+             'loop rule, not mechanised per driver. VMDK _parse_descriptor '
+             'enters the step proofs as a function of the descriptor bytes '
+             '(reads/writes by inspection).',
         ref='DESIGN.md section 4 C01, section 3.1'),
     'C02': dict(
         text='Iff-contracts, written from the property text, for every '
@@ -309,13 +318,24 @@ CHECKS.update({
              'recovers the MAC, for all 2^48 MACs and all 2^64 network '
              'prefixes in one bit-vector query each (operator precedence of '
              '+ and ^ read from the AST); error paths raise only ValueError / '
-             'TypeError. parse_host_port/escape_ipv6, urlsplit and params() '
-             'are covered by the bounded stand-in only (real urllib/netaddr): '
-             'round trips over 3 host families x ports x defaults, agreement '
-             'with urllib.parse over a URL family.',
+             'TypeError. urlsplit: for every (url, scheme, allow_fragments) '
+             'the arguments reach urllib.parse.urlsplit unchanged and every '
+             'component of the result equals the standard library one, under '
+             'the assumed contract of the dependency; params(): for 0..3 '
+             '(name, value) pairs with every coincidence of names, an empty '
+             'query gives {}, collapse keeps the last value per name, '
+             'collapse=False keeps a bare single value or all values in '
+             'order. parse_host_port/escape_ipv6 are covered by the bounded '
+             'stand-in only (real urllib/netaddr): round trips over 3 host '
+             'families x ports x defaults; the URL family against the real '
+             'urllib.parse stays as the cross-check of the assumed contract.',
         note='A-NETADDR for EUI/IPNetwork/IPAddress; prefix length <= 64 '
-             '(low 64 bits of the network address zero); host:port and URL '
-             'clauses are bounded, not proved; pyvc, z3.',
+             '(low 64 bits of the network address zero); A-URLLIB (urlsplit '
+             'returns five strings, path without "?" and, with '
+             'allow_fragments, without "#"; parse_qsl returns pairs; '
+             'SplitResult modelled as a five-field record under the real '
+             'subclass body); the host:port clause is bounded, not proved; '
+             'pyvc, z3.',
         ref='DESIGN.md section 4 C15'),
     'C04': dict(
         category='proof',
